@@ -141,7 +141,7 @@ func c02Types() []c02Type {
 				return c02BadOp
 			},
 			ops:   []c02Op{{0, 1, 0}, {0, 3, 0}, {1, 0, 0}, {2, 0, 0}, {3, 0, 0}, {4, 0, 0}, {5, 2, 0}},
-			inits: [][]c02Op{{}, {{0, 2, 0}, {0, 4, 0}, {0, 2, 0}}},
+			inits: [][]c02Op{{}, {{0, 2, 0}, {0, 4, 0}, {0, 2, 0}}, {{0, 5, 0}, {0, 2, 0}, {0, 4, 0}}},
 			tail:  []c02Op{{3, 0, 0}, {1, 0, 0}, {1, 0, 0}, {1, 0, 0}, {1, 0, 0}, {1, 0, 0}, {1, 0, 0}, {3, 0, 0}},
 			names: func(o c02Op) string {
 				return []string{fmt.Sprintf("Push(%d)", o[1]), "Pop()", "Peek()", "Size()", "Clear()", fmt.Sprintf("Delete(%d)", o[1]), "IsEmpty()"}[o[0]%7]
@@ -506,8 +506,42 @@ func c02Explore(g *Gen, stream string, c *c02Case, max int) bool {
 	return false
 }
 
+// c02Large adds one large initial content per type (a structure that has grown through its
+// capacity thresholds): the same operation pairs are then explored on it.
+func c02Large(ty int) []c02Op {
+	var ops []c02Op
+	switch ty {
+	case 0, 1, 2, 3, 4: // heap / queues / stacks: 70 insertions, values spread so that ties and order matter
+		for i := 0; i < 70; i++ {
+			ops = append(ops, c02Op{0, (i*7)%23 + 1, 0})
+		}
+	case 5: // bstree: 70 keys, zig-zag insertion order
+		for i := 0; i < 70; i++ {
+			k := 10 + i/2
+			if i%2 == 1 {
+				k = 1000 - i/2
+			}
+			ops = append(ops, c02Op{0, k, k * 10})
+		}
+		ops = append(ops, c02Op{0, 2, 20}, c02Op{0, 4, 40})
+	case 6: // trie: the key table is small; re-put the nested keys many times
+		for i := 0; i < 60; i++ {
+			ops = append(ops, c02Op{0, i % 4, i})
+		}
+	case 7: // cache: 70 keys
+		for i := 0; i < 70; i++ {
+			ops = append(ops, c02Op{0, 100 + i, i})
+		}
+		ops = append(ops, c02Op{0, 2, 8})
+	}
+	return ops
+}
+
 func c02Gen(g *Gen) {
 	types := c02Types()
+	for ty := range types {
+		types[ty].inits = append(types[ty].inits, c02Large(ty))
+	}
 	complete := map[string]bool{"pairs": true, "triples": true, "two_by_two": true}
 	only := os.Getenv("C02_TYPES") // e.g. "7": restrict to some machines (used as a stage of other checks)
 	for ty := range types {
